@@ -34,6 +34,16 @@ impl From<[Card; 7]> for MadeHand {
     fn from(cards: [Card; 7]) -> Self {
         let flash_suit = find_flush_suit(&cards);
 
+        #[cfg(feature = "verif-hooks")]
+        if crate::verif_hooks::enabled() {
+            match flash_suit {
+                Some(suit) => {
+                    crate::verif_hooks::on_table_lookup(true, hash_for_flush(&cards, &suit))
+                }
+                _ => crate::verif_hooks::on_table_lookup(false, hash_for_rainbow(&cards)),
+            }
+        }
+
         match flash_suit {
             Some(suit) => MadeHand(AS_FLUSH[hash_for_flush(&cards, &suit) as usize]),
             _ => MadeHand(AS_RAINBOW[hash_for_rainbow(&cards) as usize]),
